@@ -136,8 +136,10 @@ def extract(src: str) -> dict:
     if body and isinstance(body[0], ast.Expr) and isinstance(body[0].value, ast.Constant) \
             and isinstance(body[0].value.value, str):
         body = body[1:]
-    need(len(body) == 5, 'body = try_parse, if parse_keys, parse_pair, try items(), return')
-    s_try, s_if, s_pair, s_items, s_ret = body
+    need(len(body) in (5, 7), 'body = try_parse, if parse_keys, parse_pair, try items(), return '
+                              '(or: ..., result = {}, for-loop, return result)')
+    s_try, s_if, s_pair, s_items = body[:4]
+    s_tail = body[4:]
 
     # try_parse
     need(isinstance(s_try, ast.FunctionDef) and s_try.name == 'try_parse', 'def try_parse')
@@ -206,9 +208,110 @@ def extract(src: str) -> dict:
     f['mapping_catches'] = [handler_types(s_items.handlers[0])]
 
     # return dict(map(parse_pair, items))
-    need(isinstance(s_ret, ast.Return) and s_ret.value is not None, 'final return')
-    f['result_expr'] = U(s_ret.value)
+    if len(s_tail) == 1:
+        s_ret = s_tail[0]
+        need(isinstance(s_ret, ast.Return) and s_ret.value is not None, 'final return')
+        f['result_expr'] = U(s_ret.value)
+    else:
+        f['result_expr'] = explicit_loop(fn, s_tail)
     return f
+
+
+CANONICAL_RESULT = 'dict(map(parse_pair, items))'
+
+
+def explicit_loop(fn, tail):
+    """The one other spelling of `return dict(map(parse_pair, items))` that is recognised:
+
+        R = {}                      # or dict()
+        for X in items:
+            K, V = parse_pair(X)
+            R[K] = V
+        return R
+
+    with R, X, K, V four distinct names that are used nowhere else in parse_to_dict (so they can
+    shadow nothing).  It inserts the pairs one at a time in iteration order exactly like dict() over
+    the lazy map (parse_pair always returns a 2-tuple; an exception of parse_pair or an unhashable key
+    ends the loop at that item), so it is reported as the canonical expression.  Anything else —
+    another iterable, another callee, extra statements, an else clause, a different target, a
+    comprehension — is Unknown (fail-closed)."""
+    s_init, s_for, s_ret = tail
+    need(isinstance(s_init, ast.Assign) and len(s_init.targets) == 1 and isinstance(s_init.targets[0], ast.Name),
+         'loop form: R = {}')
+    R = s_init.targets[0].id
+    v = s_init.value
+    empty = (isinstance(v, ast.Dict) and not v.keys and not v.values) or \
+            (isinstance(v, ast.Call) and isinstance(v.func, ast.Name) and v.func.id == 'dict'
+             and not v.args and not v.keywords)
+    need(empty, 'loop form: R starts as the empty dict')
+    need(isinstance(s_for, ast.For) and not s_for.orelse and isinstance(s_for.target, ast.Name)
+         and isinstance(s_for.iter, ast.Name) and s_for.iter.id == 'items' and len(s_for.body) == 2
+         and s_for.type_comment is None, 'loop form: for X in items: <2 statements>')
+    X = s_for.target.id
+    a1, a2 = s_for.body
+    need(isinstance(a1, ast.Assign) and len(a1.targets) == 1 and isinstance(a1.targets[0], ast.Tuple)
+         and len(a1.targets[0].elts) == 2 and all(isinstance(e, ast.Name) for e in a1.targets[0].elts),
+         'loop form: K, V = ...')
+    K, V = (e.id for e in a1.targets[0].elts)
+    c = a1.value
+    need(isinstance(c, ast.Call) and isinstance(c.func, ast.Name) and c.func.id == 'parse_pair'
+         and len(c.args) == 1 and not c.keywords and isinstance(c.args[0], ast.Name) and c.args[0].id == X,
+         'loop form: K, V = parse_pair(X)')
+    need(isinstance(a2, ast.Assign) and len(a2.targets) == 1 and isinstance(a2.targets[0], ast.Subscript)
+         and isinstance(a2.targets[0].value, ast.Name) and a2.targets[0].value.id == R
+         and isinstance(a2.targets[0].slice, ast.Name) and a2.targets[0].slice.id == K
+         and isinstance(a2.value, ast.Name) and a2.value.id == V, 'loop form: R[K] = V')
+    need(isinstance(s_ret, ast.Return) and isinstance(s_ret.value, ast.Name) and s_ret.value.id == R,
+         'loop form: return R')
+    names = [R, X, K, V]
+    need(len(set(names)) == 4, 'loop form: four distinct names')
+    # none of them occurs anywhere else in parse_to_dict, except as a PARAMETER of an inner function
+    # (which has its own scope: `def parse_tuple(key, value)`); in particular none is free in an
+    # inner function, a parameter of parse_to_dict, or the name of an inner function
+    in_tail = {id(n) for st in tail for n in ast.walk(st)}
+
+    def scan(node, shadowed):
+        for ch in ast.iter_child_nodes(node):
+            if id(ch) in in_tail:
+                continue
+            if isinstance(ch, (ast.FunctionDef, ast.AsyncFunctionDef, ast.Lambda, ast.ClassDef)):
+                need(getattr(ch, 'name', None) not in names, 'loop form: a loop name names an inner function')
+                if isinstance(ch, ast.ClassDef):
+                    raise Unknown('loop form: class definition')
+                a = ch.args
+                need(not a.vararg and not a.kwarg and not a.kwonlyargs and not a.posonlyargs,
+                     'loop form: inner function with an unusual signature')
+                params = {x.arg for x in a.args}
+                for d in list(a.defaults) + [x.annotation for x in a.args if x.annotation is not None]:
+                    scan_expr(d, shadowed)
+                body = ch.body if isinstance(ch.body, list) else [ch.body]
+                for st in body:
+                    scan_stmt(st, shadowed | params)
+                continue
+            scan_stmt(ch, shadowed)
+
+    def scan_expr(node, shadowed):
+        for n in ast.walk(node):
+            if isinstance(n, ast.Name) and n.id in names and n.id not in shadowed:
+                raise Unknown('loop form: a loop name is also used elsewhere')
+
+    def scan_stmt(node, shadowed):
+        if id(node) in in_tail:
+            return
+        if isinstance(node, ast.Name):
+            if node.id in names and node.id not in shadowed:
+                raise Unknown('loop form: a loop name is also used elsewhere')
+        elif isinstance(node, ast.ExceptHandler) and node.name in names:
+            raise Unknown('loop form: a loop name is also used elsewhere')
+        elif isinstance(node, (ast.Global, ast.Nonlocal)) and set(node.names) & set(names):
+            raise Unknown('loop form: a loop name is declared global/nonlocal')
+        scan(node, shadowed)
+
+    for x in fn.args.args + fn.args.kwonlyargs:
+        need(x.arg not in names, 'loop form: a loop name is a parameter of parse_to_dict')
+    for st in fn.body:
+        scan_stmt(st, frozenset())
+    return CANONICAL_RESULT
 
 
 ORDER = ['default_sep', 'default_parse', 'default_parse_binding', 'default_parse_keys',
